@@ -7,7 +7,7 @@
    * random.randint(a, b) consumes one element of the draw list; an exhausted list reads as a.
    No proofs about the C07 models here (those are in Proofs/C07_gen_equiv.v), only generic loop lemmas. *)
 From Coq Require Import List ZArith Bool Lia.
-From DV Require Import Base.PyList Base.C07_Num Model.C07_RefPoints.
+From DV Require Import Base.PyList Base.C07_Num Model.C07_RefPoints Model.C07_Spea2.
 Import ListNotations.
 
 Inductive ctl (S R : Type) : Type := Next (s : S) | Ret (r : R).
@@ -169,3 +169,72 @@ Definition gen_refs_model {T} (Op : numops T) (fuel : nat) (ref : list T) (nobj 
   map (fun nums => firstn (Z.to_nat depth) ref
                    ++ map (fun i => n_div Op (n_ofZ Op (Z.of_nat i)) (n_ofZ Op total)) nums)
       (gen_num (Z.to_nat nobj - 1 - Z.to_nat depth) (Z.to_nat left) []).
+
+(* ---- Python numbers in a list that holds ints first and floats later (selSPEA2's `fits`) ---- *)
+Inductive pynum (T : Type) : Type := PI (n : nat) | PF (x : T).
+Arguments PI {T} n. Arguments PF {T} x.
+
+Definition pn_val {T} (Op : numops T) (p : pynum T) : T :=
+  match p with PI n => n_ofZ Op (Z.of_nat n) | PF x => x end.
+
+(* int + int is an int; anything with a float is a float (the int is converted) *)
+Definition padd {T} (Op : numops T) (a b : pynum T) : pynum T :=
+  match a, b with
+  | PI x, PI y => PI (x + y)
+  | _, _ => PF (n_add Op (pn_val Op a) (pn_val Op b))
+  end.
+
+(* list.sort() on (number, index) tuples: Python's tuple order ((==) on the first component, then <), ints compared
+   through their float value (exact below 2^53); the result of a sort is determined by the order, rendered as the
+   same insertion sort as the hand model's sort_pairs *)
+Definition pn_conv {T} (Op : numops T) (p : pynum T * nat) : T * nat := (pn_val Op (fst p), snd p).
+Fixpoint ins_pn {T} (Op : numops T) (x : pynum T * nat) (l : list (pynum T * nat)) : list (pynum T * nat) :=
+  match l with
+  | [] => [x]
+  | y :: r => if pair_lt Op (pn_conv Op x) (pn_conv Op y) then x :: l else y :: ins_pn Op x r
+  end.
+Definition sort_pn {T} (Op : numops T) (l : list (pynum T * nat)) : list (pynum T * nat) := fold_right (ins_pn Op) [] l.
+
+Lemma sort_pn_conv {T} (Op : numops T) (l : list (pynum T * nat)) :
+  map (pn_conv Op) (sort_pn Op l) = sort_pairs Op (map (pn_conv Op) l).
+Proof.
+  induction l as [|x l IH]; [reflexivity|]. cbn [sort_pn sort_pairs fold_right map]. fold (sort_pn Op l).
+  fold (sort_pairs Op (map (pn_conv Op) l)). rewrite <- IH. generalize (sort_pn Op l) as s. intro s.
+  induction s as [|y s IHs]; [reflexivity|]. cbn [ins_pn ins_sorted map].
+  destruct (pair_lt Op (pn_conv Op x) (pn_conv Op y)); cbn [map]; [reflexivity|]. now rewrite IHs.
+Qed.
+
+(* xs[:z] for an int z: a negative bound counts from the end *)
+Definition py_firstn {A} (z : Z) (l : list A) : list A :=
+  if (z <? 0)%Z then firstn (length l - Z.to_nat (- z)) l else firstn (Z.to_nat z) l.
+
+(* for j in range(a, a+n): d[j] = g j *)
+Lemma for_set_range_spec {A} (g : nat -> A) (d0 : A) : forall n a (st : list A), (a + n <= length st)%nat ->
+  length (for_ (seq a n) (fun j d => set_nth d j (g j)) st) = length st /\
+  forall j, nth j (for_ (seq a n) (fun j d => set_nth d j (g j)) st) d0
+            = if (a <=? j)%nat && (j <? a + n)%nat then g j else nth j st d0.
+Proof.
+  induction n as [|n IH]; intros a st H.
+  - unfold for_. cbn [seq fold_left]. split; [reflexivity|]. intro j. replace (a + 0)%nat with a by lia.
+    destruct (Nat.leb_spec a j), (Nat.ltb_spec j a); cbn [andb]; try reflexivity; lia.
+  - cbn [seq]. unfold for_ in *. cbn [fold_left].
+    destruct (IH (Datatypes.S a) (set_nth st a (g a))) as [L Hn]; [rewrite set_nth_length; lia|].
+    rewrite set_nth_length in L. split; [exact L|]. intro j. rewrite Hn.
+    destruct (Nat.eq_dec a j) as [->|Ne].
+    + rewrite nth_set_nth_same by lia.
+      destruct (Nat.leb_spec (Datatypes.S j) j); [lia|]. cbn [andb].
+      destruct (Nat.leb_spec j j); [|lia]. destruct (Nat.ltb_spec j (j + Datatypes.S n)); [reflexivity|lia].
+    + rewrite nth_set_nth_other by exact Ne.
+      destruct (Nat.leb_spec (Datatypes.S a) j), (Nat.leb_spec a j); cbn [andb]; try lia; try reflexivity.
+      destruct (Nat.ltb_spec j (Datatypes.S a + n)), (Nat.ltb_spec j (a + Datatypes.S n)); try lia; reflexivity.
+Qed.
+
+Lemma zip_nth_seq {A B} (a : list A) (b : list B) da db L : length a = L -> length b = L ->
+  zip a b = map (fun l => (nth l a da, nth l b db)) (seq 0 L).
+Proof.
+  revert b L. induction a as [|x a IH]; intros b L Ha Hb; destruct b as [|y b]; cbn in *; subst L; try discriminate; [reflexivity|].
+  cbn [seq map nth]. f_equal. rewrite <- seq_shift, map_map. apply IH; [reflexivity|congruence].
+Qed.
+
+Lemma filter_map_comm {A B} (f : B -> bool) (g : A -> B) l : filter f (map g l) = map g (filter (fun x => f (g x)) l).
+Proof. induction l as [|x l IH]; [reflexivity|]. cbn. destruct (f (g x)); cbn; now rewrite IH. Qed.
